@@ -100,6 +100,17 @@ Theorem C20_argument_typed : forall p s v o, conv_arg p s v = Ok o -> typed_for 
 Proof. exact conv_arg_typed. Qed.
 Print Assumptions C20_argument_typed.
 
+(* converted arguments are collector roots from the moment they are converted: the evaluation of a later argument of
+   the same call (any expression, any fuel: allocation, FRE's collection, nested calls) leaves the converted value in
+   temp_values at its place, typed for its parameter and standing for the same value *)
+Theorem C20_argument_rooted : forall c fuel p e s v o,
+  Good c s -> Jt s -> obj_ok c s v -> conv_arg p s v = Ok o ->
+  let '(s', _) := parse c fuel e (tv_push s o) in
+  Good c s' /\ length (tvals s') = S (length (tvals s)) /\
+  typed_for p (nth 0 (tvals s') (ONum 0 0)) /\ arg_val c s' (nth 0 (tvals s') (ONum 0 0)) = arg_val c s o.
+Proof. exact converted_argument_rooted. Qed.
+Print Assumptions C20_argument_rooted.
+
 (* non-vacuity: with one function defined, a call on a good state satisfies the hypotheses and returns *)
 Example C20_nonvacuous :
   let c := mk_cfg 4717 4800 [(4730, [97; 98])] in
